@@ -273,7 +273,7 @@ func keyTagCase(r *Rng, flags uint16, proto, alg uint8, seed []byte, n int, emit
 	st["keytag_checked"]++
 	in := keyIn{Flags: flags, Proto: proto, Alg: alg, Seed: Hx(seed), N: n}
 	if alg != 1 && got != want {
-		if len(rd) > 4096 {
+		if len(rd) > 4096 && got == 0 {
 			st["keytag_oversize_dev"]++
 			Viol("C17/KeyTag/rdata-over-4096", fmt.Sprintf("KeyTag()=%d, RFC 4034 App. B gives %d (RDATA of %d octets does not fit the 4096-octet scratch buffer)", got, want, len(rd)), in)
 		} else {
@@ -641,7 +641,7 @@ func n3Case(r *Rng, zone, name [][]byte, oh, nh []byte, ha uint8, iter uint16, s
 		n3shape[shape+"/"+pos+"/"+zs]++
 		if gm != wm {
 			switch {
-			case len(zone) == 0:
+			case len(zone) == 0 && wm && !gm:
 				Viol("C17/Match/root-zone-owner", "Match is false for an NSEC3 RR of the root zone although the hashes are equal", in)
 			default:
 				Viol("C17/Match/value", fmt.Sprintf("Match=%v, expected %v", gm, wm), in)
@@ -649,7 +649,7 @@ func n3Case(r *Rng, zone, name [][]byte, oh, nh []byte, ha uint8, iter uint16, s
 		}
 		if gc != wc {
 			switch {
-			case len(zone) == 0:
+			case len(zone) == 0 && wc && !gc:
 				Viol("C17/Cover/root-zone-owner", "Cover is false for an NSEC3 RR of the root zone although the hash is strictly inside the interval", in)
 			case lowerNext:
 				Viol("C17/Cover/lowercase-next-hash", fmt.Sprintf("Cover=%v, expected %v: NextDomain in lower-case base32hex is compared as text with the upper-case name hash", gc, wc), in)
@@ -797,8 +797,9 @@ func valCase(i, e uint32, t int64, emit bool) {
 		// within 68 years of both in RFC 1982 serial arithmetic only: the interval or t crosses a 2^32 boundary.
 		// Only unambiguous cases: lifetime below 2^31 and t within 34 years (2^30) of both fields.
 		st["validity_serial_only"]++
+		// observation only (docs/C17.md): the property reads "within 68 years" on the integers, which excludes these
 		if want := serialLe(int64(i), t) && serialLe(t, int64(e)); got != want {
-			Viol("C17/ValidityPeriod/serial-wrap", fmt.Sprintf("ValidityPeriod=%v, RFC 1982 serial arithmetic (RFC 4034 3.1.5) gives %v", got, want), in)
+			st["validity_serial_only_differs_from_rfc1982"]++
 		}
 	}
 	if emit {
